@@ -27,12 +27,15 @@ def gen_case(r, hashseed):
     program = gen.gen_nonrecursive(r, n_idb=r.randint(3, 6))
   else:
     program, family, main = gen.gen_recursive(r, r.choice([21, 22, 23, 30, 41, 22, 21]))
+    if r.random() < 0.25:
+      gen.add_functor(r, program, main)     # M2 := M(E: ETwo) over the deep recursion
   idb = gen.idb_names(program)
   dep = gen.dependants(program)
   if kind in ('ground', 'deep+ground'):
     comps, graph = ref.sccs(program['preds'])
     recursive = {n for c in comps if len(c) > 1 or c[0] in graph[c[0]] for n in c}
-    cands = [n for n in idb if n not in recursive] or []
+    fnames = {f['name'] for f in program.get('functors') or []}
+    cands = [n for n in idb if n not in recursive and n not in fnames] or []
     if kind == 'deep+ground' and not cands:
       kind = 'deep'
     elif cands:
